@@ -562,6 +562,36 @@ func c02HelperResult(c *Check, id string, r *RouterRoles, pubErrCalls []ssa.Call
 			okAll := len(pb.Common().Args) >= 2 && isOut(pb.Common().Args[len(pb.Common().Args)-1]) && !InLoop(pb) && len(direct) == 1
 			c.Report(okAll, id, "PUBLISH-ALL-OUTPUTS", H, pb.Pos(), fmt.Sprintf("Publish#%d", i), "the slice the chain returned is handed to Publish unchanged, in one call (no output is filtered out, de-duplicated or left in an unpublished rest while the input is Acked)")
 		}
+		// … and the messages in it too: the router assigns no UUID, payload or metadata of a message (it only attaches the
+		// handler context to the outputs)
+		nw := 0
+		for _, f := range []*ssa.Function{H, r.Dispatch} {
+			if f == nil {
+				continue
+			}
+			AllInstrs(f, func(in ssa.Instruction) {
+				bad := ""
+				switch x := in.(type) {
+				case *ssa.Store:
+					if fld, base := FieldOf(x.Addr); fld != nil && base != nil && fld.Exported() && NamedOf(base.Type()) != nil && NamedOf(base.Type()).Obj().Name() == "Message" && NamedOf(base.Type()).Obj().Pkg().Path() == msgPkg {
+						bad = "store to Message." + fld.Name()
+					}
+				case *ssa.MapUpdate:
+					if x.Map.Type().String() == msgPkg+".Metadata" {
+						bad = "metadata map update"
+					}
+				case ssa.CallInstruction:
+					if CalleeName(x) == nMetaSet {
+						bad = "Metadata.Set"
+					}
+				}
+				if bad != "" {
+					nw++
+					c.Report(false, id, "ROUTER-LEAVES-MESSAGES-AS-THEY-ARE", f, in.Pos(), bad, "the dispatch function and the publish helper edit no message (consumed or produced): outputs reach the publisher unmodified")
+				}
+			})
+		}
+		c.Report(true, id, "MESSAGE-EDITS-SCANNED", H, H.Pos(), "dispatch function and publish helper", fmt.Sprintf("%d assignments to message fields / metadata", nw))
 	}
 
 }
